@@ -20,9 +20,12 @@ def handle (op : String) (j : Json) : Option Json :=
   match op with
   | "layerfile.rwr" =>
     let text := getB j "text"
-    let l1 := readLayerFile text
+    -- the reader WITH the scanner's line limit (theorem readLayerFileScanner_eq: the same
+    -- function as the command model's reader on every text whose lines are shorter)
+    let l1 := readLayerFileScanner text
     let w := render l1
-    let l2 := readLayerFile w
+    let l2 := readLayerFileScanner w
+    let overlong := (rawLines text).any fun l => !(l.length < scanLimit)
     let model := obj [("cls", "ok"), ("r1", jLayerFile l1), ("written", jb w), ("r2", jLayerFile l2)]
     let impl := getObj j "impl"
     let r1 := getObj impl "r1"
@@ -31,15 +34,19 @@ def handle (op : String) (j : Json) : Option Json :=
     -- must read back, after being written out, with the same base, imports and exports in
     -- the same order and again without messages
     let loaded := getStr r1 "cls" == "ok" && getNat r1 "nmsgs" == 0
-    let holds := !loaded ||
-      (getStr impl "cls" == "ok" && getStr r2 "cls" == "ok" && content r2 == content r1 && getNat r2 "nmsgs" == 0)
+    -- … and a text with a line the reader cannot hold must not load "cleanly": whatever
+    -- follows that line would silently be dropped by the next rewrite
+    let holds := (!loaded ||
+      (getStr impl "cls" == "ok" && getStr r2 "cls" == "ok" && content r2 == content r1 && getNat r2 "nmsgs" == 0))
+      && !(overlong && loaded)
     let tags :=
       [(if l1.nmsgs == 0 then "msgs:0" else "msgs:some"), "stream:" ++ getStr j "stream"] ++
       (if w != text then ["noncanonical"] else []) ++
       (if l1.base.isEmpty then [] else ["base"]) ++
       (if l1.mounts.isEmpty then [] else ["imports"]) ++
       (if l1.exports.isEmpty then [] else ["exports"]) ++
-      (if text.any (· ≥ 128) then ["non-ascii"] else [])
+      (if text.any (· ≥ 128) then ["non-ascii"] else []) ++
+      (if overlong then ["line>=64KiB"] else [])
     let trivial := l1.base.isEmpty && l1.mounts.isEmpty && l1.exports.isEmpty
     some (obj [("model", model), ("holds", Json.bool holds),
                ("tags", Json.arr (tags.map Json.str).toArray), ("trivial", Json.bool trivial)])
